@@ -237,12 +237,17 @@ def remarkFor (cfg : GCfg) (f : Finding) : Str :=
     | none => []
   | none => []
 
-/-- safety mode: a suppressed critical error is still forwarded (as `internal` when the suppression names its id) -/
+/-- the body of `if (nomsg.isSuppressed(errorMessage, mUseGlobalSuppressions)) { … }`:
+    safety mode — a suppressed critical error is still forwarded (as `internal` when the suppression names its id);
+    then (since /repo cc259cb) a worker that runs without the global suppressions shows them the finding, which only
+    updates their checked/matched flags -/
 def safetyStep (env : Env) (cfg : GCfg) (st : GState) (f : Finding) (m : Msg) (sup : Bool) : GState :=
-  if sup && cfg.safety && f.critical then
-    let r := listIsSuppressedExplicitly env cfg.useGlobal m st.nomsg
-    { st with nomsg := r.2, exitCode := 1, out := st.out ++ [{ f := f, asInternal := r.1 }] }
-  else st
+  let st1 : GState :=
+    if sup && cfg.safety && f.critical then
+      let r := listIsSuppressedExplicitly env cfg.useGlobal m st.nomsg
+      { st with nomsg := r.2, exitCode := 1, out := st.out ++ [{ f := f, asInternal := r.1 }] }
+    else st
+  if sup && !cfg.useGlobal then { st1 with nomsg := (listIsSuppressed env true m st1.nomsg).2 } else st1
 
 /-- `if (!nofail.isSuppressed(errorMessage) && !nomsg.isSuppressed(errorMessage)) mExitCode = 1;`
     (both calls with the default `global = true`; the second one only when the first returned false) -/
